@@ -380,3 +380,43 @@ CHECKS["C20"] = {
         {"variant": "asan", "engine": "serial", "mode": "conc", "procs_quick": 2, "procs_thorough": 4, "rounds_quick": 8, "rounds_thorough": 200},
     ],
 }
+
+
+# C07: (1) publication probes with plain payload fields in the TSan build, (2) every other property's stress workload re-run in the TSan
+# build (reports are attributed to C07 here and to the owning property in its own check), (3) lock-free workloads under the TSO amplifier.
+_C07_RERUN = ["C01", "C02", "C03", "C04", "C05", "C06", "C08", "C09", "C10", "C11", "C12", "C15", "C16", "C17", "C18", "C19"]
+_c07_runs = [
+    {"variant": "tsan", "engine": "stress", "procs_quick": 4, "procs_thorough": 8, "rounds_quick": 3000, "rounds_thorough": 40000},
+    {"variant": "plain", "engine": "stress", "tso": 1, "procs": 2, "rounds_quick": 3000, "rounds_thorough": 40000},
+    {"variant": "plain", "engine": "serial", "tso": 1, "procs": 2, "rounds_quick": 3000, "rounds_thorough": 40000},
+    {"variant": "asan", "engine": "stress", "procs": 2, "rounds_quick": 1500, "rounds_thorough": 20000},
+]
+for _p in _C07_RERUN:
+    _m = {"C13": "conc", "C17": "conc", "C20": "conc"}.get(_p)
+    _r = {"src": _p + ".cpp", "variant": "tsan", "engine": "stress", "procs_quick": 1, "procs_thorough": 3,
+          "rounds_quick": {"C11": 500, "C16": 500, "C19": 1000}.get(_p, 800), "rounds_thorough": 10000, "x": {"as": "C07"}}
+    if _m:
+        _r["mode"] = _m
+    _c07_runs.append(_r)
+for _p, _rq in (("C03", 2500), ("C04", 2000), ("C05", 2000), ("C19", 2000)):
+    _c07_runs.append({"src": _p + ".cpp", "variant": "plain", "engine": "stress", "tso": 1, "procs": 1, "rounds_quick": _rq, "rounds_thorough": _rq * 15, "x": {"as": "C07"}})
+    _c07_runs.append({"src": _p + ".cpp", "variant": "plain", "engine": "serial", "tso": 1, "procs": 1, "rounds_quick": _rq, "rounds_thorough": _rq * 15, "x": {"as": "C07"}})
+
+CHECKS["C07"] = {
+    "src": "C07.cpp",
+    "level": "exploration",
+    "rule": "(1) 11 publication probes with plain non-atomic payload fields, one per hand-over the library performs (left-right functor -> reader "
+            "-> next functor, cow commit -> snapshot, rcu node construct -> traverse -> reclaim, latch arrive -> wait incl. the unlocked fast "
+            "path, trigger/activate -> wait, barrier generations, deferred queue, DelayedObjects promise -> future, trip wire, shared/ordered "
+            "handles, DelayedDestructor add -> reap) under ThreadSanitizer with delay injection; (2) the stress workloads of C01-C06, C08-C12, "
+            "C15-C19 re-run in the TSan build; (3) lr / cow / rcu / trip-wire workloads and the probes with the TSO store-buffer amplifier. "
+            "A TSan report block (data race, mutex misuse, heap-use-after-free), a torn or stale plain payload, or any monitor violation under "
+            "the amplifier is a violation. Every round is non-trivial (each exercises a cross-thread hand-over); distinct = (workload, round / "
+            "schedule signature).",
+    "assumptions": ["ThreadSanitizer decides happens-before only for executions that occur and for synchronisation it intercepts; the shim "
+                    "implements timed locking by polling try_lock, so pthread_*_clocklock (not intercepted by this TSan) is never used",
+                    TSO_NOTE,
+                    "seq_cst loads / RMWs weakened to acquire/relaxed while the paired store stays seq_cst change nothing on x86 nor in TSan's "
+                    "model: out of reach for this family on this hardware (DESIGN.md 5)"],
+    "runs": _c07_runs,
+}
